@@ -622,7 +622,7 @@ static void crash_handler(int sig, siginfo_t* si, void* uc)
         R->steps = STEPS;
         char extra[300] = "";
         const char* cl = (vs_crash_classifier && (sig == SIGSEGV || sig == SIGBUS)) ? vs_crash_classifier(si->si_addr, extra, sizeof extra) : 0;
-        if (cl) snprintf(R->clause, sizeof R->clause, "%s", cl);
+        if (cl) snprintf(R->clause, sizeof R->clause, "%s:in-%s", cl, my_tid >= 0 && T[my_tid].name[0] ? T[my_tid].name : "unknown-thread"); // which thread faulted is part of the finding's identity
         else snprintf(R->clause, sizeof R->clause, "crash-signal-%d", sig);
         char d[1200];
         int o = snprintf(d, sizeof d, "%s signal %d (%s) at %p in T%d %s; ", extra, sig, strsignal(sig), si->si_addr, my_tid, my_tid >= 0 ? T[my_tid].name : "?");
